@@ -125,6 +125,33 @@ fn parse_apx_ext(bytes: &[u8]) -> Option<Vec<String>> {
     Some(out)
 }
 
+fn show(out: &[u8]) -> String {
+    if out.len() <= 600 {
+        String::from_utf8_lossy(out).to_string()
+    } else {
+        format!("{}…[{} bytes in all]…{}", String::from_utf8_lossy(&out[..200]), out.len(), String::from_utf8_lossy(&out[out.len() - 200..]))
+    }
+}
+
+/// halves and quarters of a long list first (big cases), single elements afterwards
+fn chunk_removals<T: Clone>(v: &[T]) -> Vec<Vec<T>> {
+    let n = v.len();
+    let mut out = vec![];
+    if n > 8 {
+        for parts in [2usize, 4, 8, 16, 32, 64] {
+            let step = n.div_ceil(parts);
+            let mut at = 0;
+            while at < n {
+                let mut w = v[..at].to_vec();
+                w.extend_from_slice(&v[(at + step).min(n)..]);
+                out.push(w);
+                at += step;
+            }
+        }
+    }
+    out
+}
+
 impl Property for C14 {
     fn id(&self) -> &'static str {
         "C14"
@@ -140,17 +167,22 @@ impl Property for C14 {
     }
     fn gen(&self, run_seed: u64, _tier: Tier) -> Value {
         let mut rng = Rng::sub(run_seed, "workload");
-        let universe = rng.range(1, 7);
-        let mut init: Vec<L> = (0..universe as L).filter(|_| rng.chance(1, 2)).collect();
+        // 1 run in 2500: a big framework / extension (hundreds to thousands of labels: block sizes,
+        // buffer boundaries, per-call limits of a writer); fault offsets are then sampled
+        let big = rng.chance(1, 2500);
+        let universe = if big { *rng.pick(&[257usize, 300, 512, 513, 700, 1025, 2049, 4097, 5000]) } else { rng.range(1, 7) };
+        let mut init: Vec<L> = (0..universe as L).filter(|_| big || rng.chance(1, 2)).collect();
         rng.shuffle(&mut init);
         let mut store = RefStore::default();
         for l in &init {
             store.apply(&Upd::AddArg(*l));
         }
         let mut ops = vec![];
-        for _ in 0..rng.range(0, 25) {
+        let n_ops = if big { universe / 2 + rng.below(universe) } else { rng.range(0, 25) };
+        let weights: [usize; 4] = if big { [1, 1, 30, 2] } else { [3, 2, 6, 2] };
+        for _ in 0..n_ops {
             let any = |rng: &mut Rng| rng.below(universe) as L;
-            let u = match rng.weighted(&[3, 2, 6, 2]) {
+            let u = match rng.weighted(&weights) {
                 0 => Upd::AddArg(any(&mut rng)),
                 1 => Upd::DelArg(any(&mut rng)),
                 2 => Upd::AddAtt(any(&mut rng), any(&mut rng)),
@@ -160,7 +192,8 @@ impl Property for C14 {
             ops.push(u);
         }
         let live: Vec<L> = store.live.keys().copied().collect();
-        let mut ext: Vec<L> = live.iter().copied().filter(|_| rng.bool()).collect();
+        let keep_all = big && rng.chance(1, 3);
+        let mut ext: Vec<L> = live.iter().copied().filter(|_| keep_all || rng.bool()).collect();
         rng.shuffle(&mut ext);
         if rng.chance(1, 5) {
             ext.clear();
@@ -214,7 +247,7 @@ impl Property for C14 {
             r.count("bytes_written", out.len() as u64);
             inter.bytes(&out);
             r.digest.bytes(&out);
-            let shown = String::from_utf8_lossy(&out).to_string();
+            let shown = show(&out);
             // read-back oracle
             let bad = match op {
                 WOp::Framework => {
@@ -339,7 +372,7 @@ impl Property for C14 {
                             break;
                         }
                         if fw.accepted != out {
-                            r.violations.push(fsite(Violation::new("C14", "output-differs-under-short-writes", format!("{:?} under {:?} emitted {:?} instead of {:?}", op, f, String::from_utf8_lossy(&fw.accepted), shown))));
+                            r.violations.push(fsite(Violation::new("C14", "output-differs-under-short-writes", format!("{:?} under {:?} emitted {:?} instead of {:?}", op, f, show(&fw.accepted), shown))));
                             break;
                         }
                     }
@@ -349,7 +382,7 @@ impl Property for C14 {
                             break;
                         }
                         if !out.starts_with(&fw.accepted) {
-                            r.violations.push(fsite(Violation::new("C14", "not-a-prefix", format!("{:?} under {:?} emitted {:?}, not a prefix of {:?}", op, f, String::from_utf8_lossy(&fw.accepted), shown))));
+                            r.violations.push(fsite(Violation::new("C14", "not-a-prefix", format!("{:?} under {:?} emitted {:?}, not a prefix of {:?}", op, f, show(&fw.accepted), shown))));
                             break;
                         }
                     }
@@ -390,20 +423,35 @@ impl Property for C14 {
                 }
             }
         }
-        for i in 0..case.ops.len() {
-            let mut ops = case.ops.clone();
-            ops.remove(i);
+        for ops in chunk_removals(&case.ops) {
             out.push(C14Case { ops, ..case.clone() });
         }
-        for i in 0..case.init.len() {
-            let mut init = case.init.clone();
-            init.remove(i);
+        for ext in chunk_removals(&case.ext) {
+            out.push(C14Case { ext, ..case.clone() });
+        }
+        for init in chunk_removals(&case.init) {
             out.push(C14Case { init, ..case.clone() });
         }
-        for i in 0..case.ext.len() {
-            let mut ext = case.ext.clone();
-            ext.remove(i);
-            out.push(C14Case { ext, ..case.clone() });
+        if case.ops.len() <= 64 {
+            for i in 0..case.ops.len() {
+                let mut ops = case.ops.clone();
+                ops.remove(i);
+                out.push(C14Case { ops, ..case.clone() });
+            }
+        }
+        if case.init.len() <= 64 {
+            for i in 0..case.init.len() {
+                let mut init = case.init.clone();
+                init.remove(i);
+                out.push(C14Case { init, ..case.clone() });
+            }
+        }
+        if case.ext.len() <= 64 {
+            for i in 0..case.ext.len() {
+                let mut ext = case.ext.clone();
+                ext.remove(i);
+                out.push(C14Case { ext, ..case.clone() });
+            }
         }
         out.into_iter().map(|c| serde_json::to_value(c).unwrap()).collect()
     }
